@@ -32,19 +32,34 @@ else:
     _math_gcd = fractions.gcd
 
 
-def compute_constraints_of_expression(expression, ir):
-    """Adds appropriate bounding constraints to the given expression."""
+def compute_constraints_of_expression(expression, ir, computed=None):
+    """Adds appropriate bounding constraints to the given expression.
+
+    Arguments:
+        expression: the expression to annotate.
+        ir: the IR, for looking up referenced objects.
+        computed: if not None, a set of the ids of the expressions that have
+            already been handled in the current pass.  References to virtual
+            fields compute the constraints of the referenced field's expression,
+            so without it a chain of virtual fields that each mention the
+            previous one twice (`let a1 = a0 + a0`, `let a2 = a1 + a1`, ...)
+            takes exponential time.
+    """
     if ir_util.is_constant_type(expression.type):
         return
+    if computed is not None:
+        if id(expression) in computed:
+            return
+        computed.add(id(expression))
     expression_variety = expression.which_expression
     if expression_variety == "constant":
         _compute_constant_value_of_constant(expression)
     elif expression_variety == "constant_reference":
-        _compute_constant_value_of_constant_reference(expression, ir)
+        _compute_constant_value_of_constant_reference(expression, ir, computed)
     elif expression_variety == "function":
-        _compute_constraints_of_function(expression, ir)
+        _compute_constraints_of_function(expression, ir, computed)
     elif expression_variety == "field_reference":
-        _compute_constraints_of_field_reference(expression, ir)
+        _compute_constraints_of_field_reference(expression, ir, computed)
     elif expression_variety == "builtin_reference":
         _compute_constraints_of_builtin_value(expression)
     elif expression_variety == "boolean_constant":
@@ -63,13 +78,13 @@ def _compute_constant_value_of_constant(expression):
     expression.type.integer.modulus = "infinity"
 
 
-def _compute_constant_value_of_constant_reference(expression, ir):
+def _compute_constant_value_of_constant_reference(expression, ir, computed=None):
     referred_object = ir_util.find_object(
         expression.constant_reference.canonical_name, ir
     )
     expression = ir_data_utils.builder(expression)
     if isinstance(referred_object, ir_data.EnumValue):
-        compute_constraints_of_expression(referred_object.value, ir)
+        compute_constraints_of_expression(referred_object.value, ir, computed)
         if not ir_util.is_constant(referred_object.value):
             # The enum value is a static reference to a non-constant field.  It
             # is reported by constraints.check_constraints; until then, this
@@ -82,16 +97,16 @@ def _compute_constant_value_of_constant_reference(expression, ir):
             "Non-virtual non-enum-value constant reference should have been caught "
             "in type_check.py"
         )
-        compute_constraints_of_expression(referred_object.read_transform, ir)
+        compute_constraints_of_expression(referred_object.read_transform, ir, computed)
         expression.type.CopyFrom(referred_object.read_transform.type)
     else:
         assert False, "Unexpected constant reference type."
 
 
-def _compute_constraints_of_function(expression, ir):
+def _compute_constraints_of_function(expression, ir, computed=None):
     """Computes the known constraints of the result of a function."""
     for arg in expression.function.args:
-        compute_constraints_of_expression(arg, ir)
+        compute_constraints_of_expression(arg, ir, computed)
     op = expression.function.function
     if op in (ir_data.FunctionMapping.ADDITION, ir_data.FunctionMapping.SUBTRACTION):
         _compute_constraints_of_additive_operator(expression)
@@ -113,7 +128,7 @@ def _compute_constraints_of_function(expression, ir):
     elif op == ir_data.FunctionMapping.MAXIMUM:
         _compute_constraints_of_maximum_function(expression)
     elif op == ir_data.FunctionMapping.PRESENCE:
-        _compute_constraints_of_existence_function(expression, ir)
+        _compute_constraints_of_existence_function(expression, ir, computed)
     elif op in (
         ir_data.FunctionMapping.UPPER_BOUND,
         ir_data.FunctionMapping.LOWER_BOUND,
@@ -123,22 +138,22 @@ def _compute_constraints_of_function(expression, ir):
         assert False, "Unknown operator {!r}".format(op)
 
 
-def _compute_constraints_of_existence_function(expression, ir):
+def _compute_constraints_of_existence_function(expression, ir, computed=None):
     """Computes the constraints of a $has(field) expression."""
     field_path = expression.function.args[0].field_reference.path[-1]
     field = ir_util.find_object(field_path, ir)
-    compute_constraints_of_expression(field.existence_condition, ir)
+    compute_constraints_of_expression(field.existence_condition, ir, computed)
     ir_data_utils.builder(expression).type.CopyFrom(field.existence_condition.type)
 
 
-def _compute_constraints_of_field_reference(expression, ir):
+def _compute_constraints_of_field_reference(expression, ir, computed=None):
     """Computes the constraints of a reference to a structure's field."""
     field_path = expression.field_reference.path[-1]
     field = ir_util.find_object(field_path, ir)
     if isinstance(field, ir_data.Field) and ir_util.field_is_virtual(field):
         # References to virtual fields should have the virtual field's constraints
         # copied over.
-        compute_constraints_of_expression(field.read_transform, ir)
+        compute_constraints_of_expression(field.read_transform, ir, computed)
         ir_data_utils.builder(expression).type.CopyFrom(field.read_transform.type)
         return
     # Non-virtual non-integer fields do not (yet) have constraints.
@@ -788,6 +803,7 @@ def compute_constants(ir):
         [ir_data.Expression],
         compute_constraints_of_expression,
         skip_descendants_of={ir_data.Expression},
+        parameters={"computed": set()},
     )
     traverse_ir.fast_traverse_ir_top_down(
         ir,
